@@ -116,5 +116,10 @@ theorem sendStored_sl (c : C) (h : SL K c.s.store) : SL K (sendStored c).s.store
   rw [sendStored_eq]
   exact sendStoredLoop_sl _ _ h
 
+theorem resendStored_store (c : C) : (resendStored c).s.store = (sendStored c).s.store := by
+  rcases resendStored_s c with h | h <;> rw [h]
+theorem resendStored_sl (c : C) (h : SL K c.s.store) : SL K (resendStored c).s.store := by
+  rw [resendStored_store]; exact sendStored_sl c h
+
 end
 end MqttVerif.Conn
